@@ -8,9 +8,10 @@ column labels, every row in order -- or the class of the raised exception is com
 of the input (cells = what Series.tolist() hands out, as in corr_wrappergen).
 
 small stream: 0..40 rows, 1..4 columns of int64 / float64 / bool / object / `str` dtype; missing cells None
-  or NaN (also BOTH in one object column: pandas then counts two missing "values"), duplicates, values
-  that are equal across types (1, 1.0, True), 0.0 / -0.0; profile_attrs None / subset / repeats / empty /
-  with an unknown (string) attribute; tables without rows.
+  or NaN, also BOTH in one object column (about every fifth column with >= 2 rows: Series.unique() would
+  keep the two spellings apart, the source counts len(S.dropna().unique()) and adds one for the missing
+  value), duplicates, values that are equal across types (1, 1.0, True), 0.0 / -0.0; profile_attrs None /
+  subset / repeats / empty / with an unknown (string) attribute; tables without rows.
 large stream: 19990..40010 rows, one int-valued column, exactly one duplicate / one missing value (None or
   NaN) / both / neither / a constant column with one missing value -- where the two-decimal percentages
   saturate.  The column is NOT passed as a literal: cell k is (A*k + B) mod P (a bijection on 0..n-1 for
@@ -22,9 +23,10 @@ in the observed output (parsed back, with repr(d) == the observed text checked) 
 small c; "?" elsewhere.  If the generated function hands another double to str_float the comparison fails.
 
 differ    : generated function vs the real one.
-spec_fail : (small stream, tables in the domain of the refinement theorem: no column with both None and
-            NaN) the theorem's right-hand side ProfilerRefine.explicit_result, with value ids assigned by
-            the harness by Python equality, vs the real function.
+spec_fail : (small stream, every table -- columns holding both None and NaN included, they are in the
+            domain of the refinement theorem) the theorem's right-hand side ProfilerRefine.explicit_result,
+            with value ids assigned by the harness by Python equality (every missing cell: None), vs the
+            real function.
 NOT generated (the generated function makes no claim): non-DataFrame inputs (validate_input_table is
 dropped), non-string unknown attributes (ValidationGen's validate_attr does not evaluate the message of the
 AssertionError, CPython raises TypeError while building it), repeated column labels.
@@ -87,7 +89,7 @@ def gen_column(rng, nrows):
         small = pool[:rng.randint(1, min(3, len(pool)))]
         vals = [rng.choice(small) for _ in range(nrows)]
     vals = list(vals) + [pool[0]] * (nrows - len(vals))
-    miss = rng.choice(['none', 'none', 'some', 'one', 'all', 'both'])
+    miss = rng.choice(['none', 'none', 'some', 'one', 'all', 'both', 'both'])
     nullv = rng.choice([None, float('nan')])
     if miss == 'some':
         for k in range(nrows):
@@ -271,13 +273,12 @@ def run_small(seed, n):
                 'Definition %sexp := %s.' % (nm_, expected)]
         exprs = ['iframe_same (profile_table_for_join_rows %ssf %sT %s) %sexp' % (nm_, nm_, attrs_lit(attrs), nm_)]
         labels = ['profile_table_for_join_rows']
-        in_domain = all(d['missing'] != 'None+NaN' for d in descs.values())
-        if in_domain:
-            opt = 'None' if attrs is None else '(Some [%s])' % '; '.join(C.coq_str(a) for a in attrs)
-            defs.append('Definition %sids := %s.' % (nm_, ids_fun(df)))
-            exprs.append('iframe_same (explicit_result %ssf [%s] %s %sids %s) %sexp' % (
-                nm_, '; '.join(C.coq_str(c) for c in names), C.z(nrows), nm_, opt, nm_))
-            labels.append('ProfilerRefine.explicit_result (the theorem\'s right-hand side, harness-assigned value ids)')
+        # every generated table (None and NaN in one column included) is in the domain of the refinement theorem
+        opt = 'None' if attrs is None else '(Some [%s])' % '; '.join(C.coq_str(a) for a in attrs)
+        defs.append('Definition %sids := %s.' % (nm_, ids_fun(df)))
+        exprs.append('iframe_same (explicit_result %ssf [%s] %s %sids %s) %sexp' % (
+            nm_, '; '.join(C.coq_str(c) for c in names), C.z(nrows), nm_, opt, nm_))
+        labels.append('ProfilerRefine.explicit_result (the theorem\'s right-hand side, harness-assigned value ids)')
         for k in ('attrs=' + amode, 'outcome=' + outcome, 'rows=' + ('0' if nrows == 0 else ('1' if nrows == 1 else
                                                                         ('2-10' if nrows <= 10 else '11-40')))):
             bump(k)
